@@ -10,7 +10,7 @@ from scipy import stats
 
 from vlib import dsl, gen
 from vlib.models import Model
-from vlib.monitor import Tol, fmt_exc
+from vlib.monitor import Tol, fmt_exc, numerical_failure
 from vlib.ref import COST_ALIASES, IS_CHI2, NEEDS_ERRORS, POISSON, constraint_cost, constraint_ndf, pd_info
 
 PROPERTY = "C10"
@@ -252,7 +252,10 @@ def run_single(ctx, case):
                 continue
             try:
                 mb.fit.do_fit()
-            except Exception:
+            except Exception as e:
+                if numerical_failure(e):
+                    ctx.discard("do_fit-failed-numerically")
+                    return nontrivial
                 ctx.violation(None, "do_fit.no-exception", {"traceback": fmt_exc(), "op_index": i})
                 return nontrivial
             did_fit = True
@@ -340,7 +343,10 @@ def run_multi(ctx, case):
                 continue
             try:
                 multi.do_fit()
-            except Exception:
+            except Exception as e:
+                if numerical_failure(e):
+                    ctx.discard("do_fit-failed-numerically")
+                    return nontrivial
                 ctx.violation(None, "multi.do_fit.no-exception", {"traceback": fmt_exc(), "op_index": i})
                 return nontrivial
             did_fit = True
